@@ -125,6 +125,9 @@ def k_setter(base, chk, meth, n, spec_lf, spec_py, accept_py=lambda b: True, can
     acc = [p for p in paths if p.outcome[0] == "ret" and p.outcome[1][1] is None]
     rej = [p for p in paths if p.outcome[0] == "ret" and p.outcome[1][1] is not None]
     other = [p for p in paths if p.outcome[0] != "ret"]
+    if any(p.outcome[0] == "error" for p in other) and not canonical:
+        chk.extra.setdefault("limb_level_fallback", []).append(meth)
+        return setter_limbs(base, chk, meth, n, spec_lf, spec_py, accept_py)
     chk.fact("Scalar.%s: no panic on any %d-byte input (%d accepting, %d rejecting paths)" % (meth, n, len(acc), len(rej)), not other and len(acc) >= 1, [fname], detail=str([p.outcome for p in other][:2]))
     for p in acc:
         got = h.val(p, s)
@@ -151,6 +154,41 @@ def k_setter(base, chk, meth, n, spec_lf, spec_py, accept_py=lambda b: True, can
                 o.verdict = "violated" if hit else "sat-unreplayed"
         if hit:
             chk.violation("Scalar." + meth, hit["what"], hit)
+
+
+def setter_limbs(base, chk, meth, n, spec_lf, spec_py, accept_py):
+    """fallback when the abstract scalar mode cannot follow a setter (it manipulates limbs / non-Montgomery values in a way
+    the mode has no rule for): the setter is executed at limb level in Int-LF, the fiat routines from their SSA.
+    Goals: result limbs reduced (< l) and  eval(result) = value * 2^256  (mod l)."""
+    from sym.kernels import SK, sval, R256
+    prog = base.prog
+    fname = prog.find("Scalar)." + meth)
+    k = SK(base, chk, fname, label="Scalar.%s [limb level]" % meth)
+    k.dom.timeout_ms = 25000
+    bs = [k.dom.input("x[%d]" % i, 0, 255) for i in range(n)]
+    k.inputs["x"] = bs
+    boid = k.ex.new_obj(k.path, ("array", n + 72, prog.T("uint8")), name="x", init=list(bs) + [0xEE] * 72)
+    limbs = [k.dom.input("s[%d]" % i, 0, (1 << 64) - 1) for i in range(4)]
+    recv = X.Ptr(k.ex.new_obj(k.path, prog.T(E + "Scalar"), name="s", init=[list(limbs)]))
+    k.ex.deadline = time.time() + 120
+    k.ex.max_steps = 400000
+    try:
+        paths = k.ex.call(fname, [recv, X.SliceV(boid, (), 0, n, n + 72)], k.path)
+    except X.ExecError as e:
+        chk.add(Ob("Scalar.%s [limb level]: followed within the time budget" % meth, "error:%s" % (str(e)[:120],), 0, [fname], "Int-LF"))
+        return
+    finally:
+        k.ex.deadline = None
+    bad = [p for p in paths if p.outcome[0] != "ret"]
+    chk.add(Ob("Scalar.%s [limb level]: returns normally on every path (%d)" % (meth, len(paths)), "unsat" if paths and not bad else "sat", 0, [fname], "Int-LF", detail=str([p.outcome for p in bad][:2])))
+    for i, p in enumerate(p for p in paths if p.outcome[0] == "ret" and p.outcome[1][1] is None):
+        out = k.limbs(p, X.Ptr(recv.obj, (0,)))
+        k.goal(p, "le", "path %d: result limbs are a reduced scalar (< l)" % i, sval(out), L - 1)
+        want = spec_lf(k.dom, p, bs)
+        k.goal(p, "congr", "path %d: result = %s * 2^256 (mod l)" % (i, spec_py[0]), sval(out), LF.of(want).scale(R256 % L), L)
+        chk.fact("Scalar.%s [limb level]: returns (receiver, nil); input bytes not written" % meth, p.outcome[1][0] == recv and not any(w[0] == "w" and w[1] == boid for w in p.log), [fname])
+    k.replay = lambda models, seed: setter_replay(chk, meth, n, spec_py[1], accept_py)
+    k.settle("Scalar." + meth)
 
 
 def clamp_lf(dom, p, bs):
